@@ -10,6 +10,7 @@ PROP = {
              "Unit TestSeveralQuotasPerRequest: two independent quotas A, B (max 1-4, interval 1-5 s|min, optional group header) plus an optional quota no flow references, flows with one Limiter (h.com/a, h.com/b) "
              "and with two chained Limiters (h.com/ab, h.com/ba), histories of 4-40 {advance, jump to a window end of A or B, request(url, group)}; non-trivial: a history with a refusal and a request through two limiters"),
     "assumptions": [
+        "one history in six with a grouped quota starts with two groups whose header values are related by the separator of the quota's state keys ('a' / 'a_b', 'a' / 'a_currentCount', ...): both are used, a window later the longer one is used up to its maximum while the shorter stays idle, a group never seen before shows up, and the longer one asks again",
         "the gateway's log level (LOG_LEVEL: off in three cases of eight, else error / info / debug / trace; what is logged is thrown away, what a log statement does to build its arguments happens) is a generated part of every case of TestFixedWindowHistories: no answer may depend on it; a failing case reports its level",
         "one request in six carries the transaction id of one of the four requests before it (a retried call: the interceptors re-send x-lunar-req-id and the proxy takes the transaction id from it); the model counts it like any other request",
         "histories contain metrics-collection steps (a harness-owned otel reader collects the quota gauges through their registered callbacks, hook 6df7625)",
